@@ -32,7 +32,7 @@ CHECKS = {
   'engine': 'sim_machine',
   'technique': 'deterministic simulation: seeded store/load/instruction histories on the real symbolic machine, refinement-checked against a concrete byte-addressed reference machine under several valuations',
   'text': 'Seeded exploration with a reference model: histories of stores, loads and state-moving instructions (length 1..12) are executed by the real emulator and by an independent little-endian byte-memory interpreter of the same lifted semantics; every register and a dense window of memory read-backs of widths 8/16/32 are compared under several valuations of the initial symbols. The small space named by the property (<=2 stores + 1 load, widths 8/16/32, offsets 0..7, constant or symbolic base) is sampled without replacement: completely in the thorough tier, a stated fraction in the quick tier.',
-  'note': 'Trusted: the ~300-line reference evaluator (standard bit-vector meaning of the IR operators); one symbolic data base per history and a stack far away from it (the non-aliasing assumption miasmX itself makes); histories on which emulation raises, whose repe/repne flag is not concrete at some step, or whose lifted assignment is ill-typed are discarded and counted; general arithmetic/logic instructions are tallied only (their mismatches come from the simplifier, C05/C06) - pairs of or/and/xor/add with constants on one destination do decide; a 'sumbase' history uses one two-term base (ebx+ecx*scale) instead of the single register; 64-bit cells come from x87 stores whose conversion both sides treat as the same uninterpreted function.',
+  'note': 'Trusted: the ~300-line reference evaluator (standard bit-vector meaning of the IR operators); one symbolic data base per history and a stack far away from it (the non-aliasing assumption miasmX itself makes); histories on which emulation raises, whose repe/repne flag is not concrete at some step, or whose lifted assignment is ill-typed are discarded and counted; general arithmetic/logic instructions are tallied only (their mismatches come from the simplifier, C05/C06) - pairs of or/and/xor/add with constants on one destination do decide; a sumbase history uses one two-term base (ebx+ecx*scale) instead of the single register; 64-bit cells come from x87 stores whose conversion both sides treat as the same uninterpreted function.',
   'design': 'DESIGN.md 4.3',
  },
  'C10': {
